@@ -132,6 +132,8 @@ impl Dictionary for MergedDictionary {
             .iter()
             .flat_map(|d| d.fuzzy_match(word, max_distance, max_results))
             .sorted_by_key(|r| r.edit_distance)
+            // A word that several children know is one result, not one per child.
+            .unique_by(|r| r.word)
             .take(max_results)
             .collect()
     }
@@ -146,6 +148,7 @@ impl Dictionary for MergedDictionary {
             .iter()
             .flat_map(|d| d.fuzzy_match_str(word, max_distance, max_results))
             .sorted_by_key(|r| r.edit_distance)
+            .unique_by(|r| r.word)
             .take(max_results)
             .collect()
     }
